@@ -3,7 +3,7 @@
    lock-protocol skeleton of every function the model transcribes - branch structure, returns, defers,
    Lock/Unlock, sync.Map calls, helper calls, FileSys/Dirent/File/AuthFile calls, SFid field reads and
    writes, in source order - into Gen/GenSessLock.v.  Below is the skeleton the programs of
-   Model/SessLock.v were transcribed from (source as of /repo 012a085).  The lemma fails to compile as soon
+   Model/SessLock.v were transcribed from (source as of /repo e9fb232).  The lemma fails to compile as soon
    as the source's skeleton differs: an added early return, a moved or dropped defer, a new table or FileSys
    action, a new field write.  Then: re-read the function, re-transcribe its program, re-run
    [wf_prog_of], and replace the function's line here by the generated one. *)
@@ -13,7 +13,8 @@ Import ListNotations.
 Open Scope string_scope.
 
 Definition transcribed_skeleton : list (string * list string) :=
-  [ ("getRef", ["if{"; "return"; "}"; "refs:Load"; "if{"; "return"; "}"; "lock:ref"; "get:Ent"; "if{"; "unlock:ref"; "return"; "}"; "return"]);
+  [ ("Stop", ["for{"; "func{"; "if{"; "return"; "}"; "lock:ref"; "refs:CompareAndDelete"; "get:Ent"; "if{"; "call:delRefAction"; "}"; "unlock:ref"; "return"; "}"; "refs:Range"; "}"; "return"]);
+    ("getRef", ["if{"; "return"; "}"; "refs:Load"; "if{"; "return"; "}"; "lock:ref"; "get:Ent"; "if{"; "unlock:ref"; "return"; "}"; "return"]);
     ("link", ["set:Ent"]);
     ("newRef", ["if{"; "return"; "}"; "lock:ref"; "refs:LoadOrStore"; "if{"; "return"; "}"; "return"]);
     ("delRef", ["refs:Load"; "if{"; "return"; "}"; "lock:ref"; "defer-unlock:ref"; "refs:CompareAndDelete"; "if{"; "return"; "}"; "get:Ent"; "if{"; "return"; "}"; "call:delRefAction"; "return"]);
